@@ -547,7 +547,7 @@ func TestVerif_C19(t *testing.T) {
 	htp := w.File("htpasswd", "hu:"+c19SHA("hp")+"\nother:"+c19SHA("x")+"\n")
 	w.File("a.txt", "file content")
 	cfgs := c19Configs(w, idp2, htp)
-	nRandom := run.Env.Pick(1200, 8000)
+	nRandom := run.Env.Pick(900, 8000)
 	vfParallel(len(cfgs), 4, func(ci int) {
 		cfg := cfgs[ci]
 		c := c19Prepare(run, w, idp2, cfg, nil)
@@ -603,7 +603,11 @@ func TestVerif_C19(t *testing.T) {
 		for _, f := range fields {
 			byName[f.Name] = f.Vals
 		}
-		for _, pr := range [][3]string{{"remote", "clientip", "/x"}, {"remote", "clientip", "/oauth2/callback"}, {"xfh", "xfp", "/oauth2/start"}, {"xfh", "xfp", "/oauth2/sign_out"}, {"xfu", "xfh", "/oauth2/auth"}, {"host", "xfh", "/x"}, {"xfu", "rd", "/oauth2/start"}} {
+		pairs := [][3]string{{"remote", "clientip", "/x"}, {"remote", "clientip", "/oauth2/callback"}, {"xfh", "xfp", "/oauth2/start"}, {"xfh", "xfp", "/oauth2/sign_out"}, {"xfu", "xfh", "/oauth2/auth"}, {"host", "xfh", "/x"}, {"xfu", "rd", "/oauth2/start"}}
+		if !strings.HasPrefix(cfg.Name, "reverse-proxy/") && !run.Env.Thorough() {
+			pairs = pairs[:1] // outside reverse-proxy mode the forwarding headers are inert (C16): one pair family suffices in quick
+		}
+		for _, pr := range pairs {
 			for _, a := range byName[pr[0]] {
 				for _, b := range byName[pr[1]] {
 					if len(a) > 500 || len(b) > 500 {
